@@ -115,6 +115,16 @@ PROPS = {
             "the dataflow inside Client::register that passes the same rk to the authenticator and to credProps",
         ],
     },
+    "C13": {
+        "units": [], "kani_complete": ["status"], "kani_bounded_quick": [], "kani_bounded_thorough": [],
+        "design_ref": "DESIGN.md section 5 / C13",
+        "not_covered": [
+            "integer map keys, ascending order, omitted optionals, defaults, duplicate / missing members, unknown "
+            "keys: all of that is the expansion of serde_workaround! driven by serde's data model and ciborium "
+            "(no contract language for serde's visitor protocol; Kani on ciborium with symbolic bytes is intractable). "
+            "A renumbered member is NOT detected",
+        ],
+    },
     "C15": {
         "units": ["hid", "u2f"],
         "kani_complete": [],
